@@ -12,7 +12,7 @@ ASSUMPTIONS = ["time items strictly increasing", "survival table in [0,1]; diago
                "scipy kernels are functions of their arguments (uninterpreted, congruence only) in the time-shift harness",
                "scipy.linalg.solve_triangular satisfies its documented contract"]
 OUTSIDE = ["n beyond the bound", "IEEE rounding"]
-VARIANTS = "impulse and causal on a model computed before; plain per-label parameter vectors; np.allclose by numpy's definition in the scaling harness; causality with the shipped classes (start / middle)"
+VARIANTS = "impulse and causal on a model computed before; plain per-label parameter vectors; np.allclose by numpy's definition in the scaling harness; causality with the shipped classes (start / middle); label dimensions lettered c / i, one as long as the time dimension"
 BOUNDS = {"quick": dict(n=[3, 4], labels=2, grids=dsm.GRIDS, linearity_stock_driven="n=3 only"), "thorough": dict(n=[3, 4, 5, 6], labels="2 and 2x2", grids=dsm.GRIDS, linearity_stock_driven="n=3 only")}
 for _t in BOUNDS.values():
     _t["variants_beyond_the_base_enumeration"] = VARIANTS
@@ -40,6 +40,12 @@ def configs(tier, seed):
                     ek = "x".join(f"{l}{k}" for l, k in extra.items())
                     out.append(dict(h="labels", op=kind, key=f"labels/{kind}/grid={grid}/n={n}/extra={ek}", kind=kind, grid=grid, n=n, extra=extra))
                 out.append(dict(h="shift_table", op=kind, key=f"shift_table/{kind}/grid={grid}/n={n}", kind=kind, grid=grid, n=n, extra={"r": 2}))
+    for kind in KINDS:
+        # label dimensions whose letters an index expression might reserve for itself ('c' as in cohort, 'i'), one of them
+        # as long as the time dimension
+        for extra in ({"c": 3}, {"c": 2}, {"i": 3, "c": 2}):
+            ek = "x".join(f"{l}{k}" for l, k in extra.items())
+            out.append(dict(h="labels", op=kind + "letters", key=f"labels/{kind}/grid=uneven/n=3/extra={ek}", kind=kind, grid="uneven", n=3, extra=extra))
     for kind in KINDS:
         # scaling f(k x) = k f(x) with np.allclose following numpy's definition: explores the region where the
         # whole driver is within allclose's absolute tolerance of zero
